@@ -18,6 +18,9 @@ func (ft *funcTr) expr(e ast.Expr, want types.Type) ([]pre, string) {
 	if p, v, ok := ft.exprExt(e, want); ok { // ext.go
 		return p, v
 	}
+	if p, v, ok := ft.partialLit(e); ok { // partiallit.go
+		return p, v
+	}
 	tv, ok := t.info.Types[e]
 	if ok && tv.Value != nil {
 		T := tv.Type
@@ -52,10 +55,16 @@ func (ft *funcTr) expr(e ast.Expr, want types.Type) ([]pre, string) {
 			return nil, ft.names[v]
 		}
 		if v, ok := obj.(*types.Var); ok && v.Pkg() == t.pkg && v.Parent() == t.pkg.Scope() {
+			if p, v, ok := ft.inputVar(x); ok { // segfail.go
+				return p, v
+			}
 			return nil, t.pkgVar(x, v)
 		}
 		t.fail(e, "identifier %s", x.Name)
 	case *ast.StarExpr:
+		if p, v, ok := ft.inputVar(x); ok { // segfail.go
+			return p, v
+		}
 		return ft.deref(x) // state.go
 	case *ast.UnaryExpr:
 		if x.Op == token.AND && t.cfg.StatePassing {
@@ -153,6 +162,9 @@ func (ft *funcTr) expr(e ast.Expr, want types.Type) ([]pre, string) {
 }
 
 func (ft *funcTr) binop(n ast.Node, op token.Token, k kind, a, b string) string {
+	if s, ok := ft.binopInt64(op, k, a, b); ok { // int64.go
+		return s
+	}
 	switch k {
 	case kInt:
 		switch op {
